@@ -1,0 +1,63 @@
+//go:build verif
+
+// Contracts for the deductive verifier in /verif (comment-only file).
+// Property C13, as far as counters can carry it: the ActionResult is handed
+// out only if the completeness check returned nil; the check returns nil only
+// if its last existence query found nothing missing; every top-level digest
+// field was put into the queue and every output directory's Tree was fetched;
+// a full batch is verified before it is dropped; any failure aborts the check.
+// qAdds (declared with util.VisitProtoBytesFields): number of add() calls.
+package completenesschecking
+
+//@ ghost ccCalls int
+//@ ghost ccLast int
+
+//@ func (*findMissingQueue).deriveDigest
+//@   modifies nothing
+//@   ensures [malformed-means-not-found] result1 != nil ==> code(result1) == NotFound
+
+//@ func (*findMissingQueue).finalize
+//@   requires q.contentAddressableStorage != nil
+//@   modifies baCalls(q.contentAddressableStorage), fmArg(q.contentAddressableStorage), fmRes(q.contentAddressableStorage),
+//@         fmErr(q.contentAddressableStorage), fmResLen(q.contentAddressableStorage)
+//@   ensures [asked] baCalls(q.contentAddressableStorage) == old(baCalls(q.contentAddressableStorage)) + 1
+//@   ensures [nil-only-if-nothing-missing] result == nil ==> fmErr(q.contentAddressableStorage) == nil && fmResLen(q.contentAddressableStorage) == 0
+//@   ensures [missing-means-not-found] fmErr(q.contentAddressableStorage) == nil && fmResLen(q.contentAddressableStorage) > 0 ==> result != nil && code(result) == NotFound
+//@   ensures [failure-surfaced] fmErr(q.contentAddressableStorage) != nil ==> result != nil && code(result) == code(fmErr(q.contentAddressableStorage))
+
+// add: nil digests are skipped; a malformed digest or a batch with a missing
+// object aborts; a full batch is checked before it is replaced.
+//@ func (*findMissingQueue).add
+//@   requires q.contentAddressableStorage != nil
+//@   modifies qAdds, q.pending, baCalls(q.contentAddressableStorage), fmArg(q.contentAddressableStorage), fmRes(q.contentAddressableStorage),
+//@         fmErr(q.contentAddressableStorage), fmResLen(q.contentAddressableStorage)
+//@   exitghost qAdds := old(qAdds) + 1
+//@   ensures [counted] qAdds == old(qAdds) + 1
+//@   ensures [batch-dropped-only-after-check] q.pending.digests != old(q.pending.digests) ==>
+//@         baCalls(q.contentAddressableStorage) == old(baCalls(q.contentAddressableStorage)) + 1
+//@         && fmErr(q.contentAddressableStorage) == nil && fmResLen(q.contentAddressableStorage) == 0
+//@   ensures [unchanged-queue-target] unchanged(q.contentAddressableStorage)
+
+//@ func (*completenessCheckingBlobAccess).checkCompleteness
+//@   requires ba.contentAddressableStorage != nil && actionResult != nil
+//@   exitghost ccLast := result
+//@   exitghost ccCalls := old(ccCalls) + 1
+//@   ensures [recorded] ccLast == result && ccCalls == old(ccCalls) + 1
+//@   ensures [every-top-level-digest-queued] result == nil ==>
+//@         qAdds >= old(qAdds) + len(actionResult.OutputFiles) + 2 * len(actionResult.OutputDirectories) + 2
+//@   ensures [every-tree-fetched] result == nil ==>
+//@         baGets(ba.contentAddressableStorage) == old(baGets(ba.contentAddressableStorage)) + len(actionResult.OutputDirectories)
+//@   ensures [last-query-found-nothing-missing] result == nil ==> fmErr(ba.contentAddressableStorage) == nil && fmResLen(ba.contentAddressableStorage) == 0
+//@   loop 0 invariant -1 <= rangeindex && rangeindex < len(actionResult.OutputFiles) && qAdds == old(qAdds) + rangeindex + 1 && unchanged(baGets(ba.contentAddressableStorage))
+//@         && unchanged(ba.contentAddressableStorage) && unchanged(len(actionResult.OutputFiles)) && unchanged(len(actionResult.OutputDirectories))
+//@   loop 1 invariant -1 <= rangeindex && rangeindex < len(actionResult.OutputDirectories) && qAdds == old(qAdds) + len(actionResult.OutputFiles) + 2 * (rangeindex + 1)
+//@         && unchanged(baGets(ba.contentAddressableStorage)) && unchanged(ba.contentAddressableStorage)
+//@         && unchanged(len(actionResult.OutputFiles)) && unchanged(len(actionResult.OutputDirectories))
+//@   loop 2 invariant -1 <= rangeindex && rangeindex < len(actionResult.OutputDirectories) && qAdds >= old(qAdds) + len(actionResult.OutputFiles) + 2 * len(actionResult.OutputDirectories) + 2
+//@         && baGets(ba.contentAddressableStorage) == old(baGets(ba.contentAddressableStorage)) + rangeindex + 1
+//@         && unchanged(ba.contentAddressableStorage) && unchanged(len(actionResult.OutputFiles)) && unchanged(len(actionResult.OutputDirectories))
+
+//@ func (*completenessCheckingBlobAccess).Get
+//@   requires ba.BlobAccess != nil && ba.contentAddressableStorage != nil
+//@   ensures result != nil
+//@   ensures [result-only-if-complete] !typeis(result, "buffer.errorBuffer") ==> ccCalls == old(ccCalls) + 1 && ccLast == nil
